@@ -605,7 +605,9 @@ def job_analyze(job):
             raise
         except Exception as ex:
             go.update(exc=type(ex).__name__, msg=str(ex)[:300],
-                      where=traceback.extract_tb(ex.__traceback__)[-1].name)
+                      where=traceback.extract_tb(ex.__traceback__)[-1].name,
+                      where_polar=next((fr.name for fr in reversed(traceback.extract_tb(ex.__traceback__))
+                                        if fr.filename.startswith(REPO) and "/site-packages/" not in fr.filename), None))
     res["goals"] = goals_out
 
     # ---- sensitivities (both methods)
